@@ -817,7 +817,8 @@ static void do_tmpf(int n, char **t)
     printf("ret=%s tpl=", fd >= 0 ? "ok" : "-1");
     {
         size_t sl = strlen(buf), j;
-        if (real && fd >= 0 && sl >= 6) memset(buf + sl - 6, 'X', 6), unlink(buf), memset(buf + sl - 6, 'X', 6);
+        if (real && fd >= 0) unlink(buf);                  /* the file in /tmp is removed under its real name */
+        if (real && fd >= 0 && sl >= 6) memset(buf + sl - 6, 'X', 6);     /* then the six characters are masked */
         if (!real && dirlen > 0 && sl >= (size_t) dirlen && !memcmp(buf, dir, (size_t) dirlen)) { printf("D+"); for (j = (size_t) dirlen; j < sl; j++) printf("%02x", (unsigned char) buf[j]); }
         else if (!real && dirlen > 0 && sl > 0 && sl <= (size_t) dirlen && !memcmp(buf, dir, sl)) printf("d%lu", (unsigned long) sl);
         else if (!sl) printf("-");
